@@ -380,7 +380,7 @@ func pcValidate(lines []*pcLine, timeout time.Duration) (pcTraceResult, error) {
 	if !out.Accepted {
 		out.FailLine = r.HW + 1
 		for _, ln := range strings.Split(r.Output, "\n") {
-			if strings.Contains(ln, "_MISMATCH") {
+			if strings.Contains(ln, "LINE_MISMATCH") && strings.Contains(ln, fmt.Sprintf("\"LINE_MISMATCH\", %d,", out.FailLine)) {
 				out.FailText = strings.TrimSpace(ln)
 				break
 			}
